@@ -20,7 +20,9 @@ import (
 
 var gNames = []string{"p", "q", "right", "resource", "operation", "owner", "a", "b1", "can_read", "x:y", "zZ_9", "fact", "user", "time"}
 var gVars = []string{"x", "y", "0", "1", "var1", "file", "true", "resource", "A_b:c"}
-var gStrings = []string{"", "a", "read", "/a/file1.txt", "hello world", "é日本", "a//b", "x;y", "check if", "$x", "{p}", "1 < 2", "[1,2]", "tab\there", "#sym", "hex:41", "2006-01-02T15:04:05Z", "true", "42", "100%", "50%off", "/my%20files", "%s%d%v", "%"}
+var gStrings = []string{"", "a", "read", "/a/file1.txt", "hello world", "é日本", "a//b", "x;y", "check if", "$x", "{p}", "1 < 2", "[1,2]", "tab\there", "#sym", "hex:41", "2006-01-02T15:04:05Z", "true", "42", "100%", "50%off", "/my%20files", "%s%d%v", "%",
+	// strings whose content is an operator, a bracket or a keyword of the grammar
+	"!", "(", ")", "==", "&&", "||", "+", "-", "*", "/", ".", ",", "<-", "[", "]", "length", "contains", "allow if", "or", "<", ">="}
 var gParams = []string{"p", "param1", "a:b", "X", "9"}
 var gDates = []string{"2006-01-02T15:04:05Z", "1970-01-01T00:00:00Z", "2006-01-02T15:04:05+07:00", "2038-01-19T03:14:08Z", "1999-12-31T23:59:59-11:30", "2020-02-29T12:00:00.5Z", "9999-12-31T23:59:59Z"}
 
